@@ -95,10 +95,64 @@ OS_FUNCS = {"open": _first, "write": _first, "fsync": _first, "close": _first, "
             "unlink": _first, "makedirs": _first}
 
 
+class FileProxy:
+    """File object returned by a traced os.fdopen(): bytes written sit in a user-space buffer until flush()/close();
+    only then do they reach the kernel (event 'file.flush', which the durability model treats like os.write)."""
+
+    def __init__(self, f, tracer, layer, fd):
+        self._f, self._t, self._layer, self._fd = f, tracer, layer, fd
+        self._pending = b""
+
+    def write(self, data):
+        self._pending += bytes(data)
+        return self._f.write(data)
+
+    def _flushed(self):
+        if self._pending:
+            data, self._pending = self._pending, b""
+            tgt = self._t.rel(self._fd)
+            self._t.fire("before", self._layer, "file.flush", tgt, {"args": (self._fd, data)})
+            self._t.fire("after", self._layer, "file.flush", tgt, {"args": (self._fd, data)})
+
+    def flush(self):
+        r = self._f.flush()
+        self._flushed()
+        return r
+
+    def close(self):
+        tgt = self._t.rel(self._fd)
+        pending = bool(self._pending)
+        if pending:
+            data, self._pending = self._pending, b""
+            self._t.fire("before", self._layer, "file.flush", tgt, {"args": (self._fd, data)})
+        r = self._f.close()
+        if pending:
+            self._t.fire("after", self._layer, "file.flush", tgt, {"args": (self._fd, data)})
+        self._t.fire("after", self._layer, "os.close", tgt, {"args": (self._fd,)})
+        return r
+
+    def fileno(self):
+        return self._f.fileno()
+
+    def __enter__(self):
+        return self
+
+    def __exit__(self, *a):
+        self.close()
+
+    def __getattr__(self, n):
+        return getattr(self._f, n)
+
+
 def make_os_proxy(tracer, layer, funcs=None):
     w = {}
     for name, tof in (funcs or OS_FUNCS).items():
         w[name] = _wrap(tracer, layer, "os." + name, getattr(os, name), tof)
+
+    def fdopen(fd, *a, **kw):
+        return FileProxy(os.fdopen(fd, *a, **kw), tracer, layer, fd)
+
+    w["fdopen"] = fdopen
     return ModProxy(os, w)
 
 
